@@ -99,19 +99,25 @@ pub fn check_ctx(ctx: &CaseCtx, mode: Option<(Mode, u64)>) -> Outcome {
     let replayed = catch(|| assert_interpreted_results(&back, &rows, true));
     if let Err(p) = replayed {
         out.err = Some((
-            format!("replay-failed:{}", panic_signature(&p)),
+            format!("replay-failed:{}", panic_signature(&p).chars().take(70).collect::<String>()),
             format!("replaying the deserialised trace: panic at {}: {}", p.location, p.message.chars().take(300).collect::<String>()),
         ));
     }
     out
 }
 
-/// Only the plain (non-read-ahead) adapter is traced. Traces recorded around a read-ahead adapter
-/// are not replayable by `TraceReaderAdapter` (it re-executes lazily and asserts the recorded
-/// order of operations); the property does not quantify over adapters, so demanding that would be
-/// stricter than the statement (it fired on the unchanged tree and was triaged as a false alarm).
-fn mode_for(_index: u64) -> Option<(Mode, u64)> {
-    None
+/// Every other case is traced around a data source that keeps ONE element of look-ahead on every
+/// resolver (so the trace holds two `YieldInto` before the first `YieldFrom`, the shape the replay
+/// reader's input buffers exist for). Deeper read-ahead (chunks, prefetch-all) inside the tap is NOT
+/// used: `TraceReaderAdapter` re-executes lazily and cannot replay a trace in which a resolver saw
+/// its input exhausted before yielding - that fired on the unchanged tree and was triaged as a
+/// false alarm (the property does not quantify over read-ahead data sources; see DESIGN §6).
+fn mode_for(index: u64) -> Option<(Mode, u64)> {
+    if index % 2 == 0 {
+        None
+    } else {
+        Some((Mode::LookAheadOne, index))
+    }
 }
 
 pub fn handle(report: &mut Report, ctx: &CaseCtx) {
